@@ -120,6 +120,24 @@ def malformed_tree(rng, lang):
     return t, kind
 
 
+def replay(data):
+    """./check C07 --replay work/C07/replay.json : rebuild every failing batch and run the oracle on it again"""
+    again = 0
+    for f in data.get('failures', []):
+        d = f.get('data') or {}
+        if 'batch' not in d:
+            print(f"not replayable: {f.get('kind')}")
+            continue
+        set_global_language_to(d['lang'])
+        got = []
+        fmt_oracle.check_batch(fmt_oracle.unser_batch(d['batch']), d['lang'], lambda k, desc, x: got.append((k, desc)), lambda k: None, formats=[d['format']])
+        print(f"{f['kind']} [{d['format']}/{d['lang']}]: " + ('REPRODUCED: ' + got[0][1][:300] if got else 'not reproduced'))
+        again += bool(got)
+    for b in data.get('broken_obligations', []):
+        print('broken obligation:', b if isinstance(b, str) else (b.get('name') if isinstance(b, dict) else b[0]))
+    return 1 if again else 0
+
+
 def run(ctx):
     from depccg.printer import to_string
     from depccg.printer.auto import auto_extended_of
